@@ -365,6 +365,53 @@ def closure_rules(model, R):
                                                 'not the empty set'})
                 else:
                     R.unknown('WIRING', f, s, f'{name}: statement', src(s)[:60])
+            elif (isinstance(s, ast.If) and not s.orelse and len(s.body) == 1 and isinstance(s.body[0], ast.Return)
+                  and nloop == 1 and name in ('double', 'doubleprime') and s.body[0].value is not None):
+                # early exit between the two derivation phases: the closure component must still be the second derivation.
+                #  * all-ones of the input's class under "the first derivation is empty" is that second derivation (decided: fine);
+                #  * the *input itself* is its own closure only when it is closed, which a test on the first derivation
+                #    (or on the input's truth value) does not establish (decided: violation);
+                #  * anything else is not judged.
+                rv = s.body[0].value
+                parts0 = rv.elts if isinstance(rv, ast.Tuple) else [rv]
+                want0 = [2] if name == 'double' else [2, 1]
+                gnames = {n.id for n in ast.walk(s.test) if isinstance(n, ast.Name)}
+                gvals = {g_: val.get(g_) or ((glob[g_][0] == 'supremum' and ('sup', glob[g_][1])) if g_ in glob else None) for g_ in gnames}
+                verdict = 'ok' if len(parts0) == len(want0) else 'unknown'
+                for p_, lvl in zip(parts0, want0):
+                    a_ = p_.args[0] if isinstance(p_, ast.Call) and len(p_.args) == 1 and not p_.keywords else p_
+                    if not isinstance(a_, ast.Name):
+                        verdict = 'unknown'
+                        break
+                    v_ = val.get(a_.id) or ((glob[a_.id][0] == 'supremum' and ('sup', glob[a_.id][1])) if a_.id in glob else None)
+                    if lvl == 1:
+                        if v_ != ('derive', 1, 'T'):
+                            verdict = 'unknown'
+                            break
+                    elif v_ == ('derive', 0, 'S'):
+                        mentions_full_input = ('sup', 'S') in gvals.values()
+                        if mentions_full_input or any(isinstance(n, ast.Call) for n in ast.walk(s.test)):
+                            verdict = 'unknown'
+                        else:
+                            verdict = 'echo'
+                        break
+                    elif v_ == ('sup', 'S'):
+                        t_ = s.test
+                        if not (isinstance(t_, ast.UnaryOp) and isinstance(t_.op, ast.Not) and isinstance(t_.operand, ast.Name)
+                                and val.get(t_.operand.id) == ('derive', 1, 'T')):
+                            verdict = 'unknown'
+                            break
+                    else:
+                        verdict = 'unknown'
+                        break
+                if verdict == 'echo':
+                    R.bad('WIRING', f, s, f'{name}: the closure is the second derivation on every exit',
+                          'the value reduced by the second loop (or all-ones when the first derivation is empty)',
+                          f'if {src(s.test)}: return {src(rv)}  (the input itself, under a test that does not make it closed)',
+                          extra={'consequence': 'the input need not be closed: members related to everything the input shares are missing from the '
+                                                'returned closure, so the pair is not a concept (e.g. a proper subset of several full rows)'})
+                elif verdict == 'unknown':
+                    R.unknown('WIRING', f, s, f'{name}: statement', src(s)[:60])
             else:
                 R.unknown('WIRING', f, s, f'{name}: statement', src(s)[:60])
             seq.append(s)
